@@ -19,6 +19,7 @@ import (
 	"hop.computer/hop/config"
 	"hop.computer/hop/hopserver"
 	"hop.computer/hop/keys"
+	"hop.computer/hop/kravatte"
 	"hop.computer/hop/transport"
 	"hop.computer/hop/zzverif/fix"
 	"hop.computer/hop/zzverif/simnet"
@@ -224,6 +225,30 @@ func (j junk) build(c capture, liveSid, otherSid [4]byte) []byte {
 			b[0] = byte(t)
 		}
 		return b
+	case "sealed": // a session message sealed correctly under a guessable key
+		var sid []byte
+		switch j.A / 256 {
+		case 0:
+			sid = liveSid[:]
+		case 1:
+			sid = otherSid[:]
+		default:
+			sid = c["__half-open-session-id"]
+		}
+		if len(sid) != 4 || bytes.Equal(sid, []byte{0, 0, 0, 0}) {
+			return nil
+		}
+		key := make([]byte, transport.KeyLen)
+		if j.Op == "onekey" {
+			key = bytes.Repeat([]byte{0xff}, transport.KeyLen)
+		}
+		hdr := append([]byte{byte(j.A % 256), 0, 0, 0}, sid...)
+		hdr = append(hdr, 0, 0, 0, 0, 0, 0, 0, 7) // a fresh counter
+		aead, err := kravatte.NewSANSE(key)
+		if err != nil {
+			return nil
+		}
+		return append(hdr, aead.Seal(nil, nil, bytes.Repeat([]byte{1}, j.B), hdr[:transport.AssociatedDataLen])...)
 	case "hdr": // valid public header (type + live session id) + counter + body of zeros
 		b := []byte{byte(j.A), 0, 0, 0}
 		b = append(b, liveSid[:]...)
@@ -345,6 +370,18 @@ func alphabet(thorough bool, bases []string, lens map[string]int) []junk {
 	for _, t := range []int{0x10, 0x80, 0x05, 0x04, 0x03, 0x00, 0xff} {
 		for body := 0; body <= 44; body++ {
 			a = append(a, junk{Base: "hdr", A: t, B: body})
+		}
+	}
+	// session messages that are well-formed and correctly sealed, but under a key anybody can
+	// guess (all zero / all 0xff): for a live session, another live session and the half-open
+	// session of a handshake in progress (its id travels in clear in the server auth)
+	for _, op := range []string{"zerokey", "onekey"} {
+		for sid := 0; sid < 3; sid++ {
+			for _, t := range []int{0x10, 0x80} {
+				for _, n := range []int{0, 1, 5} {
+					a = append(a, junk{Base: "sealed", Op: op, A: sid*256 + t, B: n})
+				}
+			}
 		}
 	}
 	for _, l := range []int{0, 1, 2, 3, 4, 5, 7, 8, 15, 16, 31, 32, 33, 47, 48, 1472, 65507} {
@@ -485,8 +522,14 @@ func build(st *setupT, g group) (*live, error) {
 		if _, err := l.w.PumpUntil(nil, func(d *simnet.Datagram) bool { return d.Data[0] == stopT }); err != nil {
 			return nil, err
 		}
-		if g.Target == "client-hs2" {
-			l.w.Net.Pop() // the genuine message is replaced by junk
+		if d := l.w.Net.Pop(); d != nil {
+			// the half-open session's id is public: it travels in clear in this message
+			if len(d.Data) >= 8 && !hidden {
+				l.cap["__half-open-session-id"] = append([]byte{}, d.Data[4:8]...)
+			}
+			if g.Target != "client-hs2" { // (for client-hs2 the genuine message is replaced by junk)
+				l.w.Net.PushFront(d)
+			}
 		}
 	case "client-hs1":
 		l.X = newClient(4001)
@@ -729,7 +772,7 @@ func main() {
 		}
 		r.Finish()
 	}
-	r.SetRule(fmt.Sprintf("junk datagrams derived from this world's own captured valid datagrams (bases %v / hidden %v): truncations (quick: first 60, last 50, every 64th and around fixed-size field ends; thorough: every length), header byte and 16-bit length-field mutations, session id {live, other live, unknown}, counters {0,1,2,2^63-1,2^63,2^64-1}, all 256 type bytes on four bases, valid public header + zero bodies of length 0..44 for 7 type values, raw datagrams of 17 lengths x 2 fills x 10 leading bytes; plus, carried inside validly MACed messages of an otherwise honest client: 14 unusual server names (unknown id types, empty, 252 bytes, glob metacharacters, non-matching, IP types) and 27 altered client certificate byte strings (cuts at every field boundary, trailing byte, zeros, chunk length 0/ffff, swapped leaf/intermediate) through the client-certs seam; delivered to the server in states {idle, mid-handshake, established, established+closed handle} from the peer's and a third address, and to clients {awaiting first reply, awaiting server auth, established}; 4 server configurations (1 certificate, 2 virtual hosts through hopserver.NewVirtualHosts/Match/glob, hidden with 1 and 2 certificates). Junk of one group is delivered in batches of 16 to one world (so each datagram also meets a server that has already seen junk), in crash-isolating worker processes with a per-datagram journal. Oracle after each batch: process alive, established session present + probe both ways, fresh honest handshake completes and carries data; a failing batch is re-run datagram by datagram. distinct_nontrivial = distinct (group, junk) cases executed.", discBases, hidBases))
+	r.SetRule(fmt.Sprintf("junk datagrams derived from this world's own captured valid datagrams (bases %v / hidden %v): truncations (quick: first 60, last 50, every 64th and around fixed-size field ends; thorough: every length), header byte and 16-bit length-field mutations, session id {live, other live, unknown}, counters {0,1,2,2^63-1,2^63,2^64-1}, all 256 type bytes on four bases, valid public header + zero bodies of length 0..44 for 7 type values, transport/control messages correctly sealed under an all-zero and an all-0xff key for the live, another live and the half-open session id (payloads 0/1/5 bytes), raw datagrams of 17 lengths x 2 fills x 10 leading bytes; plus, carried inside validly MACed messages of an otherwise honest client: 14 unusual server names (unknown id types, empty, 252 bytes, glob metacharacters, non-matching, IP types) and 27 altered client certificate byte strings (cuts at every field boundary, trailing byte, zeros, chunk length 0/ffff, swapped leaf/intermediate) through the client-certs seam; delivered to the server in states {idle, mid-handshake, established, established+closed handle} from the peer's and a third address, and to clients {awaiting first reply, awaiting server auth, established}; 4 server configurations (1 certificate, 2 virtual hosts through hopserver.NewVirtualHosts/Match/glob, hidden with 1 and 2 certificates). Junk of one group is delivered in batches of 16 to one world (so each datagram also meets a server that has already seen junk), in crash-isolating worker processes with a per-datagram journal. Oracle after each batch: process alive, established session present + probe both ways, fresh honest handshake completes and carries data; a failing batch is re-run datagram by datagram. distinct_nontrivial = distinct (group, junk) cases executed.", discBases, hidBases))
 	const B = 16
 	var cur *live
 	iTo := 0
